@@ -310,7 +310,7 @@ let do_search fields =
        let sends = List.filter_map (function Send s -> Some (text_of_res (best_move_text s) ^ "#" ^ proj_of (abs0 s)) | Info (_, _, _) -> None) ev in
        let infos = List.filter_map (function Info (_, _, l) -> Some (string_of_str l) | Send _ -> None) ev in
        let line = Printf.sprintf "search panic=0 consulted=%d sends=%s infos=%s restored=%s%s"
-           (int_of_n st.clock) (String.concat "," sends) (String.concat "|" infos)
+           (int_of_n st.clock) (String.concat ";" sends) (String.concat "|" infos)
            (if table_dump_nz st.table = table_dump_nz t then "1" else "0")
            (if st.sort_ok then "" else " SORT-LOG-INVALID") in
        emit "M" line; emit "S" line
